@@ -1,5 +1,6 @@
 """C08 - dataset views: (M) TLC explores all drop/shuffle/undo histories of DatasetModel.tla; (V) random data sources and
-generator stacks behind real dataset_t objects (ASan/UBSan build), random operation histories, every view read back after
+generator stacks (also restricted to feature subsets / pairs) behind real dataset_t objects (ASan/UBSan build), random operation
+histories, every view (direct calls with fresh and re-used buffers, empty sample lists, select_iterator_t loops) read back after
 every operation and re-computed by TLC (DatasetTrace.tla)."""
 import os
 from concurrent.futures import ThreadPoolExecutor
@@ -40,8 +41,8 @@ def run(rep, tier):
 
     with ThreadPoolExecutor(nproc) as ex:
         results = list(ex.map(drive, range(nproc)))
-    total = nviews = nops = nbad = 0
-    kinds = set()
+    total = nviews = nops = nbad = niter = nempty = 0
+    kinds, probes = set(), set()
     for crashed, o, bad, acc, rejects, rs in results:
         if crashed:
             rep.violation("dataset driver crashed or was stopped by a sanitizer", payload={"output": o[-4000:]})
@@ -57,20 +58,30 @@ def run(rep, tier):
         for x in rs:
             if x["e"] == "Views":
                 nviews += 1
+                nempty += 0 if x["samples"] else 1
+            elif x["e"] == "Iter":
+                niter += 1
             elif x["e"] == "Op":
                 nops += 1
             elif x["e"] == "Bad":
                 nbad += 1
+                probes.add(x["what"] + ":" + x.get("via", ""))
             elif x["e"] == "Reset":
                 for f in x["feats"]:
                     kinds.add(f["kind"])
-    if not rep.violations and (nviews < 500 or len(kinds) < 5):
-        raise CheckError("dataset driver coverage too small: %d view records, kinds %s" % (nviews, kinds))
+    if not rep.violations and (nviews < 500 or len(kinds) < 5 or niter < 200 or nempty < 20 or len(probes) < 16):
+        raise CheckError("dataset driver coverage too small: %d view records (%d empty), %d iterator records, kinds %s, probes %s"
+                         % (nviews, nempty, niter, kinds, sorted(probes)))
     ex0 = [x for x in results[0][5] if x["e"] in ("Reset", "Op")][:5]
     rep.sample({"history": [{k: (v if len(str(v)) < 200 else str(v)[:200] + "...") for k, v in x.items()} for x in ex0]})
-    rep.add(traces_validated_against_impl=total, view_records=nviews, operations=nops, bad_index_probes=nbad, feature_kinds=sorted(kinds))
+    rep.add(traces_validated_against_impl=total, view_records=nviews, empty_sample_lists=nempty, iterator_records=niter, operations=nops,
+            bad_index_probes=nbad, bad_index_entry_points=sorted(probes), feature_kinds=sorted(kinds))
     rep.assume("stored values are small integers (exact in every storage type); NaN is logged as a marker",
                "the sources of a generated feature are taken from the descriptor the dataset reports (identity: the source's name; product(a,b))",
+               "select_iterator_t: what the callbacks receive is compared by the driver with the direct select() call on the same samples (exact, "
+               "NaN = NaN) and enters TLC as a boolean; visit counts / callback kinds per feature are checked by TLC",
+               "which features a generator stack has to generate (subsets 'if of the appropriate type', unordered pairs for the product) is "
+               "computed by the driver (stackOK)",
                "the gradient generator (sqrt/atan2 of real values) is not covered",
                "driver and library compiled with -fsanitize=address,undefined: an out-of-range read stops the driver")
 
